@@ -6,7 +6,10 @@ import os, sys, json, subprocess, time
 ROOT = os.path.dirname(os.path.dirname(os.path.abspath(__file__)))
 SEEDED = os.path.join(ROOT, 'seeded')
 EXTRA = {'C03_m2': ['C16'], 'C13_m2': ['C17'], 'C05_m1': ['C13'], 'C12_m1': ['C07'], 'C15_m1': ['C07'], 'C07_m2': ['C15'], 'C01_m2': ['C04', 'C08'], 'C01_m1': ['C07'],
-         'C10_m1': ['C17', 'C07'], 'C06_m1': ['C13'], 'C06_m2': ['C17']}
+         'C10_m1': ['C17', 'C07'], 'C06_m1': ['C13'], 'C06_m2': ['C17'],
+         'C01_m4': ['C16'], 'C03_m3': ['C17', 'C19'], 'C06_m3': ['C14'], 'C04_m4': ['C16'], 'C10_m4': ['C16'], 'C19_m4': ['C16', 'C17'], 'C17_m4': ['C19'], 'C14_m4': ['C16', 'C07'],
+         'C02_m4': ['C13', 'C07'], 'C07_m3': ['C13'], 'C05_m4': ['C16'], 'C12_m3': ['C07'], 'C18_m3': ['C03', 'C05'], 'C18_m4': ['C19'], 'C20_m3': ['C03'], 'C15_m3': ['C14'],
+         'C13_m4': ['C09'], 'C09_m4': ['C13'], 'C11_m4': ['C01', 'C07'], 'C08_m3': ['C01', 'C04'], 'C17_m3': ['C15']}
 
 
 def sh(cmd, **kw):
@@ -30,7 +33,7 @@ def main():
         if not os.path.exists(mp):
             continue
         meta = json.load(open(mp))
-        props = [meta['property']] + EXTRA.get(sid, []) + extra
+        props = [meta['property']] + ([] if '--own' in sys.argv else EXTRA.get(sid, [])) + extra
         props = [p for p in dict.fromkeys(props) if p in claimed]
         r = sh('git -C /repo apply %s' % os.path.join(d, 'patch.diff'))
         if r.returncode != 0:
